@@ -135,6 +135,7 @@ class C03(Prop):
                     "remote_id": "ELEC7001"}
         family = {}
         self.dev.responder = td.auto_responder(thermostat=reported, family=lambda conn: family.get(conn.id, "thermostat"), rnd=r)
+        clock.set_zone(r.choice(env.ZONES))   # nothing on the wire depends on the host zone
         t0 = float(r.randrange(1_000_000, 4_000_000_000)) + r.choice([0.0, 0.2, 0.8])
         world = {"zone": "UTC", "now": t0, "reported": reported}
         choice_log = []
